@@ -1,7 +1,6 @@
 """Normalisation: a *new* single-use temporary is folded back into the statement that uses it.
 
-`t = E; S(t)` becomes `S(E)` when t is a local that did not exist in the reference tree (sa/ref/known_locals.json), is
-stored once and loaded once in its function, the load is in the statement that immediately follows, and everything S
+`t = E; S(t)` becomes `S(E)` when t is a local that is stored once and loaded once in its function, the load is in the statement that immediately follows, and everything S
 evaluates before reaching the load is a plain name, constant or attribute of a name (so neither the order of effects nor
 the exception raised first can change). Refactorings that merely introduce such temporaries therefore do not change what
 the rules see; anything else is left alone."""
@@ -15,11 +14,10 @@ REF = os.path.join(os.path.dirname(os.path.abspath(__file__)), "ref", "known_loc
 
 
 def load_known():
-    try:
-        with open(REF) as f:
-            return {k: set(v) for k, v in json.load(f).items()}
-    except OSError:
-        return None
+    """the folding is unconditional (canonical form = every eligible temporary folded, whatever its name): an earlier version
+    spared the locals of the reference tree (sa/ref/known_locals.json), which made the result depend on names - a rename of
+    a local changed what the rules saw. The file is kept for reference only."""
+    return {}
 
 
 def _trivial(e):
